@@ -30,6 +30,21 @@ func (x *Exec) execInstrPartial(fr *Frame, b *ssa.BasicBlock, ins ssa.Instructio
 			abandoned = true
 		}
 	}()
+	if call, ok := ins.(*ssa.Call); ok && len(fr.fc.StopBefore) > 0 {
+		name := ""
+		if callee := call.Common().StaticCallee(); callee != nil {
+			name = contractKey(callee)
+		} else if call.Common().IsInvoke() {
+			name = call.Common().Method.Name()
+		}
+		for _, sb := range fr.fc.StopBefore {
+			if name != "" && matchCallee(name, sb) {
+				x.callsiteAsserts(fr, st, call.Common(), call)
+				x.note(fmt.Sprintf("abstracted (partial mode): by contract (stopbefore %s) the call at %s and everything after it are not executed or checked", sb, x.posOf(fr.fn, ins.Pos())))
+				return true
+			}
+		}
+	}
 	x.execInstr(fr, b, ins, st)
 	if call, ok := ins.(*ssa.Call); ok && len(fr.fc.StopAfter) > 0 {
 		name := ""
@@ -119,6 +134,9 @@ func (x *Exec) callsiteAsserts(fr *Frame, st *State, c *ssa.CallCommon, site *ss
 		}
 		o := x.vc.oblige("callsite."+tag, Implies(st.Reach, g), x.posOf(fr.fn, site.Pos()), fmt.Sprintf("at the call of %s: %s", cs.Callee, cs.Clause.Src))
 		o.Clause = cs.Clause.Src
+		// vacuity guard: the call must be reachable under the preconditions
+		x.vc.obls = append(x.vc.obls, &Obl{Name: strings.Replace(o.Name, "#callsite.", "#cover.callsite.", 1), Kind: "cover", Goal: Not(st.Reach), N: len(x.vc.items),
+			Desc: "the call of " + cs.Callee + " carrying assertion " + tag + " is reachable (otherwise the assertion is vacuous)", Fn: x.vc.fnName, VC: x.vc, Expect: "sat", Pos: x.posOf(fr.fn, site.Pos())})
 	}
 }
 
